@@ -97,4 +97,18 @@ def encEnvelope (memCap : Option Nat) (name : String) (v : V) (tail : V) : Optio
   | some m, some t => some (m ++ t)
   | _, _ => none
 
+/-- The reflective reader (`Reader.readReflect`) on the destination types the engine exercises:
+a Go slice is a `u32` count followed by the elements, a struct is its exported fields in order.
+`presized = true` is the reader as found (`reflect.MakeSlice(type, count, count)` before any
+element is read); `false` is the repaired reader (capacity hint bounded by the bytes that are
+left, grown by `append`). -/
+def reflTable (presized : Bool) : List (String × Ty) :=
+  [("u64s", .list none presized .u64),
+   ("strs", .list none presized .bytes),
+   ("recs", .list none presized (.pair .u32 .bytes)),
+   ("nested", .list none presized (.list none presized .u16)),
+   ("rec", .pair .u16 (.pair (.list none presized .u32) .bytes))]
+
+def reflTy (name : String) : Option Ty := (reflTable false).lookup name
+
 end Vivid.Codec
